@@ -32,14 +32,27 @@ Lemma shrinks_refl : forall db, shrinks db db. Proof. intros db n H. exact H. Qe
 Lemma shrinks_trans : forall a b c, shrinks a b -> shrinks b c -> shrinks a c.
 Proof. intros a b c H1 H2 n H. apply H2, H1, H. Qed.
 
+Lemma exact_ci : forall a b, str_eqb a b = true -> same_name_ci a b = true.
+Proof. intros a b H. apply str_eqb_eq in H. subst. unfold same_name_ci. apply str_eqb_refl. Qed.
+
+Lemma exists_has : forall db n, table_exists db n = true -> eng_has db n = true.
+Proof.
+  intros db n H. rewrite table_exists_alt in H. unfold eng_has.
+  induction (db_tables db) as [|t ts IH]; [discriminate|]. cbn in *.
+  destruct (str_eqb (t_name t) n) eqn:E; [rewrite (exact_ci _ _ E); reflexivity|].
+  rewrite (IH H). apply orb_true_r.
+Qed.
+
 Lemma eng_create_grows : forall db n cols, grows db (fst (eng_create db n cols)).
 Proof.
-  intros db n cols m H. unfold eng_create. destruct (table_exists db n); [exact H|].
+  intros db n cols m H. unfold eng_create. destruct (eng_has db n); [exact H|].
   cbn [fst]. rewrite table_exists_alt in *. cbn [db_tables]. rewrite existsb_app, H. reflexivity.
 Qed.
-Lemma eng_create_makes : forall db n cols, table_exists (fst (eng_create db n cols)) n = true.
+(* CREATE TABLE makes the table, unless a table whose name differs in case only is in the way *)
+Lemma eng_create_makes : forall db n cols, eng_has db n = table_exists db n ->
+  table_exists (fst (eng_create db n cols)) n = true.
 Proof.
-  intros db n cols. unfold eng_create. destruct (table_exists db n) eqn:E; [exact E|].
+  intros db n cols Hc. unfold eng_create. destruct (eng_has db n) eqn:E; [cbn [fst]; congruence|].
   cbn [fst]. rewrite table_exists_alt. cbn [db_tables]. rewrite existsb_app. cbn.
   rewrite str_eqb_refl, orb_true_r. reflexivity.
 Qed.
@@ -48,19 +61,19 @@ Proof. intros. unfold eng_create_index. destruct (_ || _); reflexivity. Qed.
 
 Lemma eng_drop_shrinks : forall db n, shrinks db (fst (eng_drop db n)).
 Proof.
-  intros db n m H. unfold eng_drop. destruct (table_exists db n); [|exact H].
-  cbn [fst]. rewrite table_exists_alt in *. cbn [db_tables]. unfold remove_table.
+  intros db n m H. unfold eng_drop. destruct (eng_has db n); [|exact H].
+  cbn [fst]. rewrite table_exists_alt in *. cbn [db_tables].
   induction (db_tables db) as [|t ts IH]; [reflexivity|].
   cbn in H. apply orb_false_iff in H. destruct H as [H1 H2].
-  cbn [filter]. destruct (negb (str_eqb (t_name t) n)); [|apply IH; exact H2].
+  cbn [filter]. destruct (negb (same_name_ci (t_name t) n)); [|apply IH; exact H2].
   cbn. rewrite H1. apply IH; exact H2.
 Qed.
 Lemma eng_drop_removes : forall db n, table_exists db n = true -> table_exists (fst (eng_drop db n)) n = false.
 Proof.
-  intros db n H. unfold eng_drop. rewrite H. cbn [fst]. rewrite table_exists_alt. cbn [db_tables].
-  unfold remove_table. induction (db_tables db) as [|t ts IH]; [reflexivity|].
-  cbn [filter]. destruct (str_eqb (t_name t) n) eqn:E; cbn [negb]; [exact IH|].
-  cbn. rewrite E. exact IH.
+  intros db n H. unfold eng_drop. rewrite (exists_has db n H). cbn [fst]. rewrite table_exists_alt. cbn [db_tables].
+  induction (db_tables db) as [|t ts IH]; [reflexivity|].
+  cbn [filter]. destruct (same_name_ci (t_name t) n) eqn:E; cbn [negb]; [exact IH|].
+  cbn. destruct (str_eqb (t_name t) n) eqn:E2; [rewrite (exact_ci _ _ E2) in E; discriminate|]. exact IH.
 Qed.
 
 Lemma efold_rel : forall {A} (R : dbstate -> dbstate -> Prop) (f : dbstate -> A -> eres) l db,
@@ -98,25 +111,45 @@ Proof.
 Qed.
 
 (* ------------------------------------------------------------------ idempotence *)
+(* no table whose name differs from n in case only (for sqlite that IS table n) *)
+Definition case_clash_free (db : dbstate) (n : str) : bool := Bool.eqb (eng_has db n) (table_exists db n).
+
 (* after createTable(ifNotExists=True), however it ended, the table is there ... *)
-Lemma create_op_exists : forall dc db,
+Lemma create_op_exists : forall dc db, case_clash_free db (table_of dc) = true ->
   table_exists (fst (create_table_op dc true db)) (table_of dc) = true.
 Proof.
-  intros dc db. unfold create_table_op. cbn [andb].
+  intros dc db Hc. apply eqb_prop in Hc. unfold create_table_op. cbn [andb].
   destruct (table_exists db (table_of dc)) eqn:E; [exact E|].
   assert (G : grows (fst (eng_create db (table_of dc) (class_cols dc)))
                     (fst (ebind (eng_create db (table_of dc) (class_cols dc))
                             (fun db1 => ebind (create_join_tables dc true db1) (fun db2 => create_indexes dc db2))))).
   { apply ebind_fst_rel; [apply grows_trans|apply grows_refl|]. intro db1.
     apply ebind_fst_rel; [apply grows_trans|apply create_join_tables_grows|apply create_indexes_grows]. }
-  apply G. apply eng_create_makes.
+  apply G. apply eng_create_makes. congruence.
 Qed.
 
-(* ... so a second call changes nothing and does not fail *)
-Theorem create_idem : forall dc db,
+(* ... so a second call changes nothing and does not fail -- whatever other tables the
+   database holds (tableExists compares the name exactly) *)
+Theorem create_idem : forall dc db, case_clash_free db (table_of dc) = true ->
   create_table_op dc true (fst (create_table_op dc true db)) = (fst (create_table_op dc true db), false).
 Proof.
-  intros dc db. unfold create_table_op at 1. cbn [andb]. rewrite create_op_exists. reflexivity.
+  intros dc db Hc. unfold create_table_op at 1. cbn [andb]. rewrite (create_op_exists dc db Hc). reflexivity.
+Qed.
+
+(* without that hypothesis the second call still leaves the state alone (it may fail again) *)
+Theorem create_idem_state : forall dc db,
+  fst (create_table_op dc true (fst (create_table_op dc true db))) = fst (create_table_op dc true db).
+Proof.
+  intros dc db. destruct (case_clash_free db (table_of dc)) eqn:Hc; [rewrite (create_idem dc db Hc); reflexivity|].
+  unfold case_clash_free in Hc. apply eqb_false_iff in Hc.
+  assert (E : table_exists db (table_of dc) = false /\ eng_has db (table_of dc) = true).
+  { destruct (table_exists db (table_of dc)) eqn:T.
+    - rewrite (exists_has _ _ T) in Hc. congruence.
+    - split; [reflexivity|]. destruct (eng_has db (table_of dc)); congruence. }
+  destruct E as [T H].
+  assert (R : create_table_op dc true db = (db, true)).
+  { unfold create_table_op. cbn [andb]. rewrite T. unfold eng_create. rewrite H. reflexivity. }
+  rewrite R. cbn [fst]. rewrite R. reflexivity.
 Qed.
 
 Lemma drop_op_gone : forall dc db,
